@@ -21,7 +21,15 @@ impl<R: Send + 'static> Server<R> {
     where
         F: Fn(TcpStream) -> R + Send + Sync + 'static,
     {
-        let listener = TcpListener::bind("127.0.0.1:0").expect("bind loopback");
+        Self::spawn_on("127.0.0.1", serve)
+    }
+
+    /// like `spawn`, bound to another loopback address (127.0.0.2, ...)
+    pub fn spawn_on<F>(ip: &str, serve: F) -> Server<R>
+    where
+        F: Fn(TcpStream) -> R + Send + Sync + 'static,
+    {
+        let listener = TcpListener::bind(format!("{ip}:0")).expect("bind loopback");
         let port = listener.local_addr().unwrap().port();
         listener.set_nonblocking(true).unwrap();
         let stop = Arc::new(AtomicBool::new(false));
